@@ -366,6 +366,70 @@ def check_probe(ctx, case) -> None:
     ctx.nt(["probe", text], {"text": text, "expected": expected})
 
 
+# ------------------------------------------------------------------------------------------------ fuzzed text
+FUZZ_VALUES = [1.5, -2.0, 0.25, 3.0, -0.5]
+
+
+def tree_vars(node, out):
+    if node is None:
+        return
+    if not node.element and node.variable:
+        out.add(node.variable)
+    tree_vars(node.left, out)
+    tree_vars(node.right, out)
+
+
+def check_fuzz_text(ctx, case) -> None:
+    """Arbitrary text: loading succeeds or raises SyntaxError/ValueError; if it loads and evaluates, the RPN machine on
+    the postfix agrees with evaluate()."""
+    from vlib import textmut as tm
+
+    text = case["text"]
+    ctx.ev()
+    try:
+        f = fl.Function.create("f", text, None)
+    except Exception as ex:  # noqa: BLE001
+        if tm.classify(ex) == "internal":
+            ctx.fail(f"load-internal-{type(ex).__name__}", case, {"text": text, "exception": str(ex)[:200]})
+        ctx.cls(("rejected:" if tm.classify(ex) == "rejected" else "unclassified:") + type(ex).__name__)
+        return
+    ctx.cls("loaded")
+    names: set = set()
+    tree_vars(f.root, names)
+    envd = {n: FUZZ_VALUES[i % len(FUZZ_VALUES)] for i, n in enumerate(sorted(names))}
+    pf = f.root.postfix()
+    if not rf.postfix_well_typed(pf):
+        ctx.cls("loaded_ill_typed")  # eg, sin of a truth value: outside the statement's domain
+        return
+    try:
+        got = f.evaluate(envd)
+        got = float(np.asarray(got, dtype=float))
+    except (TypeError, ValueError):  # ill-typed (eg, negating a truth value) or arity met by a non-value: out of scope
+        ctx.cls("loaded_not_evaluable")
+        return
+    try:
+        ref = rf.rpn(pf, envd)
+    except (rf.Unknown, SyntaxError, KeyError, ValueError):
+        ctx.cls("loaded_reference_undefined")
+        return
+    consts_ok = all(abs(float(t) - float(f"{float(t):.3f}")) == 0 for t in pf.split()
+                    if t not in rf.ARITY and t not in envd and _isnum(t))
+    if consts_ok and not close(got, ref, None):
+        # postfix prints constants with 3 decimals: compare only when the text's literals survive that
+        lits = [t for t in f.format_infix(text).split() if _isnum(t)]
+        if all(float(f"{float(t):.3f}") == float(t) or not math.isfinite(float(t)) for t in lits):
+            ctx.fail("fuzz-postfix-rpn-value", case, {"text": text, "postfix": pf, "got": got, "rpn": ref})
+    ctx.nt(text)
+
+
+def _isnum(t):
+    try:
+        float(t)
+        return True
+    except ValueError:
+        return False
+
+
 def shard(ctx, shard, nshards, ex):
     ctx.hyp("formula", cases(), check_formula, ex)
     ctx.hyp("illformed", bad_cases(), check_bad, max(20, ex // 3))
@@ -382,9 +446,17 @@ def run(ctx) -> None:
         runner.run_sharded(ctx, mod, "shard", 8, ex=2500)
     else:
         runner.run_sharded(ctx, mod, "shard", 16, ex=15000)
+        from vlib import fuzzrun
+
+        if fuzzrun.available():
+            for corpus in (True, False):
+                fuzzrun.run_campaign(ctx, "fuzz_formula", 300000, corpus, "fuzz_formula_text", check_fuzz_text)
+        else:
+            ctx.note("atheris is not importable here: coverage-guided campaign skipped")
 
 
 def replay(ctx, prop, case) -> None:
-    fn = {"formula": check_formula, "illformed": check_bad, "probe": check_probe}.get(prop)
+    fn = {"formula": check_formula, "illformed": check_bad, "probe": check_probe,
+          "fuzz_formula_text": check_fuzz_text}.get(prop)
     if fn:
         ctx.direct(prop, fn, [case])
